@@ -8,7 +8,12 @@ from vf.pool import ALL_VERSIONS, HOSTS
 from vf.run import Result
 
 
+from vf.gen import asm as ga  # noqa: E402
+from vf.props.progbase import ProgProp  # noqa: E402
+
+
 class C20:
+    pp = ProgProp()
     id = "C20"
     rule = ("case A = (host 3.8-3.13, terminating G-PROG program executed in a worker of that host to materialise "
             "functions, bound methods, classes, generator / coroutine / async-generator objects, the module code object "
@@ -52,6 +57,13 @@ class C20:
                 h = draw(st.sampled_from([t for t in HOSTS if t != v]))
                 return {"t": "api", "host": h, "v": v, "src": draw(gp.programs(v, size=draw(st.integers(2, 4))))}
             out.append(["make_std_api:" + v, api_case(), 1])
+
+            # the same route on assembled code objects (operands with EXTENDED_ARG prefixes, jumps anywhere)
+            @st.composite
+            def api_asm(draw, v=v):
+                h = draw(st.sampled_from([t for t in HOSTS if t != v]))
+                return {"t": "api", "host": h, "v": v, "src": "", "items": draw(ga.asm_cases(v, self.pp.tables(ctx, v), padding=False))}
+            out.append(["make_std_api-asm:" + v, api_asm(), 1])
         return out
 
     def judge(self, case, ctx):
@@ -77,14 +89,17 @@ class C20:
             return res
         if case.get("t") == "api" and case.get("v") in ALL_VERSIONS and case["v"] != h:
             v = case["v"]
-            ref = ctx.pool.ref(v).call("compile", src=case["src"], dis=True)
+            if case.get("items"):
+                ref = self.pp.reference({"k": "asm", "v": v, "items": case["items"]}, ctx)
+            else:
+                ref = ctx.pool.ref(v).call("compile", src=case["src"], dis=True)
             if "reject" in ref:
                 res.reject = "compiler-rejects:" + ref["reject"].split(":")[0]
                 return res
             data = rw.hx(rw.unhx(ref["header"]) + rw.unhx(ref["payload"]))
             r = ctx.pool.host(h).call_raw("x_std_api", data=data, version=v, max_code=2000)
             res.classes = ["make_std_api:%s-on-%s" % (v, h)]
-            res.key = ["api", h, v, case["src"]]
+            res.key = ["api", h, v, case["src"] or case.get("items")]
             res.nontrivial = True
             res.sample = {"host": h, "make_std_api": v, "source_head": case["src"][:200]}
             if not r["ok"]:
